@@ -502,6 +502,13 @@ class _ReachingDefs(DefaultVisitor):
             # `x` is on entry and `x''` is after the loop body
             phi, ctx = self._add_phi(name, stmt, ctx[name], body_out[name], ctx, is_loop=True)
             phis[name] = self._unify_def(phi, body_in[name])
+        # a loop variable that shadows an earlier definition is bound afresh
+        # by every iteration (`x = xs[i]` at the top of the body): after the
+        # loop the name holds either, whether or not the body assigns it
+        for name in stmt.target.names():
+            if name in ctx and name not in mutated:
+                phi, ctx = self._add_phi(name, stmt, ctx[name], body_out[name], ctx, is_loop=True)
+                phis[name] = phi
         # record the phi nodes and return the updated context
         self.phis[stmt] = phis
         return ctx
